@@ -538,10 +538,8 @@ func c6FrontEnds(c *Ctx, lv map[string]int64) {
 	lw := c.Method(zp, "loggerWriter", "Write")
 	if c.Anchor("R6.2", "zap.loggerWriter.Write", lw != nil) {
 		var lf ssa.Instruction
-		for _, cl := range Calls(lw) {
-			if strings.HasSuffix(Desc(cl.Common().Value), ".logFunc") {
-				lf = cl
-			}
+		if dc := dynFuncCall(lw); dc != nil {
+			lf = dc
 		}
 		c.Check(lf != nil && mustPass(lw, func(i ssa.Instruction) bool { return i == lf }), "R6.2", lw.String(), "always-logs", lw.Pos(), "every Write reaches the bridged Logger method (a skipped call would skip Panic/Fatal termination)")
 	}
@@ -973,4 +971,33 @@ func impliedByLevel(guard string, vars []string, L int64) bool {
 		}
 	}
 	return false
+}
+
+
+// dynFuncCall: the one call in fn that goes through a function VALUE held by the receiver (a func-typed field, or
+// the receiver itself when its type is a func type) - the bridged logger method of the std-log writer.
+func dynFuncCall(fn *ssa.Function) *ssa.Call {
+	var out *ssa.Call
+	n := 0
+	for _, cl := range Calls(fn) {
+		c2, ok := cl.(*ssa.Call)
+		if !ok || c2.Call.IsInvoke() || c2.Call.StaticCallee() != nil {
+			continue
+		}
+		if _, isB := c2.Call.Value.(*ssa.Builtin); isB {
+			continue
+		}
+		if len(fn.Params) == 0 {
+			continue
+		}
+		r := Root(c2.Call.Value)
+		if r == ssa.Value(fn.Params[0]) || Strip(c2.Call.Value) == ssa.Value(fn.Params[0]) {
+			out = c2
+			n++
+		}
+	}
+	if n != 1 {
+		return nil
+	}
+	return out
 }
